@@ -605,5 +605,255 @@ theorem node4_addChild_grow (E : Env C) (hpz : PoolsZero E) (h : Hdr) (keys : Bi
   rw [h16]
   simp only [Option.bind_some, add4, maxNode4_eq, show ¬ (4 < 4) by omega, ↓reduceIte, List.nil_append]
 
+/-! ### deleteChild -/
+
+theorem shiftDown_length' {α} (l : List α) (i : Nat) : (shiftDown l i).length = l.length := shiftDown_length l i
+
+theorem hl_beq (len n : Nat) (h : len < 256) (hn : n < 256) : (hl len == UInt8.ofNat n) = (len == n) := by
+  rw [Bool.eq_iff_iff]; simp only [beq_iff_eq]; exact hl_eq len n h hn
+
+theorem node16_deleteChild_eq (E : Env C) (hpz : PoolsZero E) (h : Hdr) (len : Nat) (keys : Bytes) (slots : List (Option C))
+    (b : UInt8) (pos : Nat) (hs : slots.length = 16) (hk : keys.length = 16) (hlen : len ≤ 16) (h0 : 0 < len)
+    (hpos : searchNode16 keys len b = (pos : Int)) (hp16 : pos < 16) :
+    node16_deleteChild E (img16 h len keys slots) b =
+      some { out := match remove16 h len keys slots b with | .node r => outOf r | .collapse _ _ c => .child c,
+             released := if (len + 255) % 256 == shrink16 then [(1, zeroImg 1)] else [] } := by
+  have hlt : (hl len).toNat = len := hl_toNat _ (by omega)
+  have hlen' : (len + 255) % 256 = len - 1 := by omega
+  simp only [node16_deleteChild, img16, hlt, hpos]
+  rw [show (16 : Nat) = keys.length from hk.symm] at hp16
+  rw [goCopy_down keys pos hp16]
+  simp only [Option.bind_eq_bind, Option.bind_some]
+  rw [show keys.length = slots.length by rw [hk, hs]] at hp16
+  rw [goCopy_down slots pos hp16]
+  simp only [Option.bind_some, hl_pred, remove16, hpos, Int.toNat_natCast]
+  have hbeq : (hl ((len + 255) % 256) == (3 : UInt8)) = ((len + 255) % 256 == shrink16) := by
+    have := hl_beq ((len + 255) % 256) 3 (by omega) (by omega)
+    rw [show UInt8.ofNat 3 = (3 : UInt8) from rfl] at this
+    rw [this]; rfl
+  by_cases hsh : ((len + 255) % 256 == shrink16) = true
+  · have hclear := node16_clear_eq E h ((len + 255) % 256) (shiftDown keys pos) (shiftDown slots pos)
+      (by rw [shiftDown_length, hs]) (by rw [shiftDown_length, hk])
+    have hcp : goCopy (zeroImg 0 : Img C).children (0 : Int) (((zeroImg 0 : Img C).children.length : Nat) : Int)
+        (shiftDown slots pos) (0 : Int) (((shiftDown slots pos).length : Nat) : Int) =
+        some ((shiftDown slots pos).take 4) := by
+      have := goCopy_front (List.replicate 4 (none : Option C)) (shiftDown slots pos) 4 (by simp)
+      simp only [img4, zeroImg, imgOf, zero4, List.length_replicate]
+      rw [this]
+      have : (shiftDown slots pos).length = 16 := by rw [shiftDown_length, hs]
+      simp [this]
+    have hg : ∀ i, i < 16 → idx? (shiftDown keys pos) ((i : Nat) : Int) = some ((shiftDown keys pos).getD i 0) := by
+      intro i hi
+      rw [idx?_nat]; exact getD_eq_some _ _ (by rw [shiftDown_length, hk]; exact hi)
+    have e0 : idx? (shiftDown keys pos) (0 : Int) = some ((shiftDown keys pos).getD 0 0) := hg 0 (by omega)
+    have e1 : idx? (shiftDown keys pos) (1 : Int) = some ((shiftDown keys pos).getD 1 0) := hg 1 (by omega)
+    have e2 : idx? (shiftDown keys pos) (2 : Int) = some ((shiftDown keys pos).getD 2 0) := hg 2 (by omega)
+    have e3 : idx? (shiftDown keys pos) (3 : Int) = some ((shiftDown keys pos).getD 3 0) := hg 3 (by omega)
+    rw [if_pos (by rw [hbeq]; exact hsh)]
+    simp only [hpz 0, e0, e1, e2, e3, Option.bind_some, hsh, if_true, ↓reduceIte]
+    rw [hcp, Option.bind_some]
+    simp only [img16] at hclear
+    rw [hclear]
+    rfl
+  · rw [if_neg (by rw [hbeq]; exact hsh)]
+    simp only [hsh, Bool.false_eq_true, if_false, ↓reduceIte]
+    rfl
+
+theorem node48_deleteChild_noshrink (E : Env C) (h : Hdr) (len : Nat) (idx : Bytes) (slots : List (Option C))
+    (b : UInt8) (hs : slots.length = 48) (hi : idx.length = 256) (hlen : len < 256)
+    (hnz : idx.getD b.toNat 0 ≠ 0) (hle : (idx.getD b.toNat 0).toNat ≤ 48)
+    (hsh : ¬ ((len + 255) % 256 == shrink48) = true) :
+    node48_deleteChild E (img16 h len idx slots) b =
+      some { out := match remove48 h len idx slots b with | .node r => outOf r | .collapse _ _ c => .child c,
+             released := [] } := by
+  have hb : b.toNat < idx.length := by rw [hi]; exact UInt8.toNat_lt b
+  have hpos := u8_pos _ hnz
+  have hbeq : (hl ((len + 255) % 256) == (12 : UInt8)) = ((len + 255) % 256 == shrink48) := by
+    have := hl_beq ((len + 255) % 256) 12 (by omega) (by omega)
+    rw [show UInt8.ofNat 12 = (12 : UInt8) from rfl] at this
+    rw [this]; rfl
+  simp only [node48_deleteChild, img16, idx?_nat, getD_eq_some idx _ hb, Option.bind_eq_bind, Option.bind_some,
+    setIdx_nat _ _ _ hb, u8_pred_toNat _ hnz, setIdx_nat _ _ _ (show (idx.getD b.toNat 0).toNat - 1 < slots.length by omega),
+    hl_pred]
+  rw [if_neg (by rw [hbeq]; exact hsh)]
+  simp only [remove48, hsh, Bool.false_eq_true, if_false, ↓reduceIte]
+  rfl
+
+theorem node256_deleteChild_noshrink (E : Env C) (h : Hdr) (len : Nat) (slots : List (Option C))
+    (b : UInt8) (hs : slots.length = 256) (hlen : len < 256)
+    (hsh : ¬ ((len + 255) % 256 == shrink256) = true) :
+    node256_deleteChild E (img256 h len slots) b =
+      some { out := match remove256 h len slots b with | .node r => outOf r | .collapse _ _ c => .child c,
+             released := [] } := by
+  have hb : b.toNat < slots.length := by rw [hs]; exact UInt8.toNat_lt b
+  have hbeq : (hl ((len + 255) % 256) == (37 : UInt8)) = ((len + 255) % 256 == shrink256) := by
+    have := hl_beq ((len + 255) % 256) 37 (by omega) (by omega)
+    rw [show UInt8.ofNat 37 = (37 : UInt8) from rfl] at this
+    rw [this]; rfl
+  simp only [node256_deleteChild, img256, Option.bind_eq_bind, Option.bind_some, setIdx_nat _ _ _ hb, hl_pred]
+  rw [if_neg (by rw [hbeq]; exact hsh)]
+  simp only [remove256, hsh, Bool.false_eq_true, if_false, ↓reduceIte]
+  rfl
+
+/-! ### `uint32` prefix lengths -/
+
+theorem hp_toNat (h : Hdr) (hb : h.plen < 2^32) : (hp h).toNat = h.plen := by
+  simp [hp]; omega
+theorem u32_lt_iff (a b : UInt32) : decide (a < b) = decide (a.toNat < b.toNat) := by
+  simp [UInt32.lt_iff_toNat_lt]
+theorem u32_add_toNat (a b : UInt32) (h : a.toNat + b.toNat < 2^32) : (a + b).toNat = a.toNat + b.toNat := by
+  rw [UInt32.toNat_add]; omega
+theorem u32_sub_toNat (a b : UInt32) (h : b.toNat ≤ a.toNat) : (a - b).toNat = a.toNat - b.toNat := by
+  rw [UInt32.toNat_sub_of_le]; rw [UInt32.le_iff_toNat_le]; exact h
+theorem u32_min_toNat (a b : UInt32) : (min a b).toNat = min a.toNat b.toNat := by
+  show (if a ≤ b then a else b).toNat = _
+  by_cases h : a ≤ b
+  · rw [if_pos h]; rw [UInt32.le_iff_toNat_le] at h; omega
+  · rw [if_neg h]; rw [UInt32.le_iff_toNat_le] at h; omega
+
+def hdrOf (v : HdrV) : Hdr := { plen := v.prefixLen.toNat, pfx := v.«prefix» }
+def hdrV (v : HdrV) (m : Hdr) : HdrV := { prefixLen := UInt32.ofNat m.plen, childrenLen := v.childrenLen, «prefix» := m.pfx }
+
+theorem copy_into_prefix (pfx chp : Bytes) (p : Nat) (h1 : pfx.length = 10) (h2 : chp.length = 10) (hp : p ≤ 10) :
+    goCopy pfx (p : Int) ((pfx.length : Nat) : Int) chp (0 : Int) ((chp.length : Nat) : Int) =
+      some ((pfx.take p ++ chp).take 10) := by
+  have := goCopy_nat pfx chp p pfx.length 0 chp.length (by omega) (Nat.le_refl _) (by omega) (Nat.le_refl _)
+  rw [show (0 : Int) = ((0 : Nat) : Int) from rfl, this]
+  congr 1
+  rw [h1, h2, List.take_append, List.length_take, h1, Nat.min_eq_left hp, List.take_take, Nat.min_eq_right hp]
+  rw [show min (10 - p) (10 - 0) = 10 - p by omega, show p + (10 - p) = 10 by omega, List.drop_zero]
+  rw [List.drop_of_length_le (by omega), List.append_nil]
+
+theorem copy_back_prefix (pfx chp : Bytes) (hi : Nat) (h1 : pfx.length = 10) (h2 : chp.length = 10) (hhi : hi ≤ 10) :
+    goCopy chp (0 : Int) ((chp.length : Nat) : Int) pfx (0 : Int) (hi : Int) = some (pfx.take hi ++ chp.drop hi) := by
+  have := goCopy_nat chp pfx 0 chp.length 0 hi (by omega) (Nat.le_refl _) (by omega) (by omega)
+  rw [show (0 : Int) = ((0 : Nat) : Int) from rfl, this]
+  congr 1
+  rw [h2, show min (10 - 0) (hi - 0) = hi by omega, List.take_zero, List.nil_append, List.drop_zero, Nat.zero_add]
+
+/-- what `*ref` designates after `node4.deleteChild`, read off the raw-node model: the node itself, or – when one child
+    is left – that child, whose header (if it is an inner node) has absorbed the node4's path, its last branch byte and
+    its own path (`Raw.mergeHdr`) -/
+def collapseOut (E : Env C) : DelRes C → Out C
+  | .node r => outOf r
+  | .collapse _ _ none => .child none
+  | .collapse h kb (some cc) =>
+    if E.isLeaf cc then .child (some cc)
+    else .child (some (E.setHdr cc (hdrV (E.hdr cc) (mergeHdr h kb (hdrOf (E.hdr cc))))))
+
+theorem node4_deleteChild_eq (E : Env C) (h : Hdr) (len : Nat) (keys : BitVec 32) (slots : List (Option C))
+    (b : UInt8) (pos : Nat) (hs : slots.length = 4) (hpf : h.pfx.length = 10) (hlen : len ≤ 4) (h0 : 0 < len)
+    (hplen : h.plen < 2 ^ 31)
+    (hpos : searchNode4 keys b.toBitVec = (pos : Int)) (hp4 : pos < 4)
+    (hch : ∀ cc, (shiftDown slots pos)[0]? = some (some cc) → E.isLeaf cc = false →
+      (E.hdr cc).«prefix».length = 10 ∧ (E.hdr cc).prefixLen.toNat < 2 ^ 31)
+    (hnn : (len + 255) % 256 = collapse4 → ∃ cc, (shiftDown slots pos)[0]? = some (some cc)) :
+    node4_deleteChild E (img4 h len keys slots) b =
+      some { out := collapseOut E (remove4 h len keys slots b),
+             released := if (len + 255) % 256 == collapse4 then [(0, zeroImg 0)] else [] } := by
+  have hlt : (hl len).toNat = len := hl_toNat _ (by omega)
+  have hbeq : (hl ((len + 255) % 256) == (1 : UInt8)) = ((len + 255) % 256 == collapse4) := by
+    have := hl_beq ((len + 255) % 256) 1 (by omega) (by omega)
+    rw [show UInt8.ofNat 1 = (1 : UInt8) from rfl] at this
+    rw [this]; rfl
+  have e : (((pos : Int) != -1) = true) := by simp
+  have hcast : ((pos : Int) + 1) = ((pos + 1 : Nat) : Int) := by omega
+  simp only [node4_deleteChild, img4, hpos, e, if_true, ↓reduceIte, hcast, natOf_nat, Option.bind_eq_bind, Option.bind_some]
+  rw [← hcast, goCopy_down slots pos (by omega)]
+  simp only [Option.bind_some, hl_pred]
+  have hsd : (shiftDown slots pos).length = 4 := by rw [shiftDown_length, hs]
+  have hrem : remove4 h len keys slots b =
+      if ((len + 255) % 256 == collapse4) = true then
+        .collapse h (Raw.u8 (getAtPos (shiftRightClear keys (pos + 1)) 0)) ((shiftDown slots pos)[0]?).join
+      else .node (.n4 h ((len + 255) % 256) (shiftRightClear keys (pos + 1)) (shiftDown slots pos)) := by
+    simp only [remove4, b8, hpos, e, if_true, ↓reduceIte, Int.toNat_natCast]
+  rw [hrem]
+  by_cases hc : ((len + 255) % 256 == collapse4) = true
+  · rw [if_pos (by rw [hbeq]; exact hc), if_pos hc, if_pos hc]
+    obtain ⟨cc, hcc⟩ := hnn (by simpa using hc)
+    have hidx : idx? (shiftDown slots pos) (0 : Int) = some (some cc) := by
+      rw [show (0 : Int) = ((0 : Nat) : Int) from rfl, idx?_nat]; exact hcc
+    have hj : ((shiftDown slots pos)[0]?).join = some cc := by rw [hcc]; rfl
+    rw [hj]
+    simp only [hidx, Option.bind_some, collapseOut]
+    have hclr : ∀ n : Img C, n.children.length = 4 → n.keysA = [] → node4_clear E n = some (zeroImg 0) := by
+      intro n h4 hk
+      simp [node4_clear, zeroImg, imgOf, zero4, clearAll, h4, hk, zeroPrefix, img4, hp, hl]
+    by_cases hleaf : E.isLeaf cc = true
+    · simp only [hleaf, Bool.not_true, Bool.false_eq_true, if_false, ↓reduceIte, Option.bind_some,
+        Option.map_some, pure, List.nil_append, if_true]
+      rw [hclr _ hsd rfl]; rfl
+    · have hleaf' : E.isLeaf cc = false := by simpa using hleaf
+      obtain ⟨hcp, hcl⟩ := hch cc hcc hleaf'
+      simp only [hleaf', Bool.not_false, if_true, ↓reduceIte, Bool.false_eq_true, if_false]
+      have hpn : (hp h).toNat = h.plen := hp_toNat h (by omega)
+      have hpn1 : (hp h + 1).toNat = h.plen + 1 := by
+        rw [u32_add_toNat _ _ (by rw [hpn]; show h.plen + 1 < 2 ^ 32; omega), hpn]; rfl
+      have c1 : decide (hp h < 10) = decide (h.plen < 10) := by
+        rw [u32_lt_iff, hpn]; rfl
+      have c2 : decide (hp h + 1 < 10) = decide (h.plen + 1 < 10) := by
+        rw [u32_lt_iff, hpn1]; rfl
+      have hplenEq : (E.hdr cc).prefixLen + (hp h + 1) = UInt32.ofNat ((E.hdr cc).prefixLen.toNat + h.plen + 1) := by
+        apply UInt32.toNat_inj.1
+        rw [u32_add_toNat _ _ (by rw [hpn1]; omega), hpn1]
+        simp; omega
+      have hkb : GoNode.u8 (getAtPos (shiftRightClear keys (pos + 1)) 0) = Raw.u8 (getAtPos (shiftRightClear keys (pos + 1)) 0) := rfl
+      simp only [natOf, hpn, hpn1, hplenEq, hkb, Int.toNat_zero, Option.bind_some]
+      have hmin10 : ∀ x : UInt32, (min (10 : UInt32) x).toNat = min 10 x.toNat := fun x => u32_min_toNat 10 x
+      by_cases hA : h.plen < 10
+      · have d1 : decide (hp h < 10) = true := by rw [c1]; simpa using hA
+        split
+        next =>
+          simp only [Int.le_refl, ↓reduceIte, Option.bind_some, setIdx_nat _ _ _ (show h.plen < h.pfx.length by omega)]
+          by_cases hB : h.plen + 1 < 10
+          · have d2 : decide (hp h + 1 < 10) = true := by rw [c2]; simpa using hB
+            split
+            next =>
+              have hsub : ((10 : UInt32) - (hp h + 1)).toNat = 10 - (h.plen + 1) := by
+                rw [u32_sub_toNat _ _ (by rw [hpn1]; show h.plen + 1 ≤ 10; omega), hpn1]; rfl
+              have hm : (min (E.hdr cc).prefixLen ((10 : UInt32) - (hp h + 1))).toNat =
+                  min (E.hdr cc).prefixLen.toNat (10 - (h.plen + 1)) := by rw [u32_min_toNat, hsub]
+              have hsum : (hp h + 1 + min (E.hdr cc).prefixLen ((10 : UInt32) - (hp h + 1))).toNat =
+                  h.plen + 1 + min (E.hdr cc).prefixLen.toNat (10 - (h.plen + 1)) := by
+                rw [u32_add_toNat _ _ (by rw [hpn1, hm]; omega), hpn1, hm]
+              have hhi : (min (10 : UInt32) (hp h + 1 + min (E.hdr cc).prefixLen ((10 : UInt32) - (hp h + 1)))).toNat =
+                  min 10 (h.plen + 1 + min (E.hdr cc).prefixLen.toNat (10 - (h.plen + 1))) := by rw [hmin10, hsum]
+              have hl' : (h.pfx.set h.plen (GoNode.u8 (getAtPos (shiftRightClear keys (pos + 1)) 0))).length = 10 := by
+                simp [hpf]
+              rw [hhi, copy_into_prefix _ _ (h.plen + 1) hl' hcp (by omega)]
+              simp only [Option.bind_some]
+              rw [copy_back_prefix _ _ _ (by simp [hpf, hcp]) hcp (by omega)]
+              simp only [Option.bind_some, Option.map_some, pure, List.nil_append]
+              rw [hclr _ hsd rfl]
+              simp only [Option.bind_some, hdrV, hdrOf, mergeHdr, maxPrefixLen, hA, ↓reduceIte, hB]
+              rfl
+            next hx => exact absurd d2 hx
+          · have d2 : decide (hp h + 1 < 10) = false := by rw [c2]; simpa using hB
+            split
+            next hx => exact absurd (d2.symm.trans hx) (by decide)
+            next =>
+              have hhi : (min (10 : UInt32) (hp h + 1)).toNat = 10 := by rw [hmin10, hpn1]; omega
+              rw [hhi, copy_back_prefix _ _ 10 (by simp [hpf]) hcp (by omega)]
+              simp only [Option.bind_some, Option.map_some, pure, List.nil_append]
+              rw [hclr _ hsd rfl]
+              simp only [Option.bind_some, hdrV, hdrOf, mergeHdr, maxPrefixLen, hA, ↓reduceIte, hB]
+              have : min 10 (h.plen + 1) = 10 := by omega
+              simp only [this]
+              rfl
+        next hx => exact absurd d1 hx
+      · have d1 : decide (hp h < 10) = false := by rw [c1]; simpa using hA
+        split
+        next hx => exact absurd (d1.symm.trans hx) (by decide)
+        next =>
+          have hhi : (min (10 : UInt32) (hp h)).toNat = 10 := by rw [hmin10, hpn]; omega
+          rw [hhi, copy_back_prefix _ _ 10 hpf hcp (by omega)]
+          simp only [Option.bind_some, Option.map_some, pure, List.nil_append]
+          rw [hclr _ hsd rfl]
+          simp only [Option.bind_some, hdrV, hdrOf, mergeHdr, maxPrefixLen, hA, ↓reduceIte]
+          have : min 10 h.plen = 10 := by omega
+          simp only [this]
+  · rw [if_neg (by rw [hbeq]; exact hc), if_neg hc, if_neg hc]
+    rfl
+
 end GenNodeOps
 end ArtVerif
